@@ -1,2 +1,160 @@
-(* Props/C18.v — C18: lint is pure, never fails, and its warnings are semantically justified. *)
-From BS Require Import Model.Base Model.Num Model.ExprParser Model.Script Model.Lint Proofs.C18.
+(* Props/C18.v — C18: lint is pure, never fails, and its warnings are semantically justified.
+   Only statements and `exact`; the proofs are in Proofs/C18.v and Proofs/C18Sim.v.
+   [lint : script -> list warning] is Model/Lint.v (transliteration of model.py lint_script and its helpers; tied to the code by the
+   correspondence check on every run); [render] gives the message text.  The scopes are the ones lint visits: the global statement
+   list and the body of each global function statement (a function nested in a function body is not visited: known finding F26). *)
+From Coq Require Import ZArith.
+From BS Require Import Model.Base Model.Num Model.Arith Model.ExprParser Model.Script Model.Interp Model.Lint
+     Proofs.C08 Proofs.C18 Proofs.C18Sim.
+
+(* (1) TOTALITY.  lint_raw makes every dict access `d[k]` of the code an explicit lookup whose failure is the outcome None (KeyError);
+   it never happens.  (The shape of statements — exactly one key, required members — is the type [stmt]: schema-valid models.)
+   Purity w.r.t. the Python object (no mutation, same answer twice) is checked on the implementation only (harness, deep copy). *)
+Theorem C18_total : forall s, exists ws, lint_raw s = Some ws /\ lint s = ws.
+Proof. exact lint_total. Qed.
+Print Assumptions C18_total.
+
+(* (2) UNKNOWN LABEL, exact: issued for l (once, naming the LAST jump to l) iff some jump of the scope targets l and no statement
+   of the scope defines l *)
+Theorem C18_unknown_exact_global : forall s l,
+  (exists i, In (WUnknownLabel l i) (lint s)) <->
+  (exists j c, nth_error s j = Some (SJump l c)) /\ (forall j, nth_error s j <> Some (SLabel l)).
+Proof. exact unknown_global_exact. Qed.
+Print Assumptions C18_unknown_exact_global.
+
+Theorem C18_unknown_exact_function : forall s l f,
+  (exists i, In (WFnUnknownLabel l f i) (lint s)) <->
+  exists k args a b body, nth_error s k = Some (SFunction f args a b body) /\
+    (exists j c, nth_error body j = Some (SJump l c)) /\ (forall j, nth_error body j <> Some (SLabel l)).
+Proof. exact unknown_fn_exact. Qed.
+Print Assumptions C18_unknown_exact_function.
+
+(* ... in terms of the runtime's own lookup [find_label] (runtime.py:83) and the index reported *)
+Theorem C18_unknown_is_find_label_none : forall s l i,
+  In (WUnknownLabel l i) (lint s) <-> last_jump l s = Some i /\ find_label l s = None.
+Proof. exact unknown_global_iff. Qed.
+Print Assumptions C18_unknown_is_find_label_none.
+
+(* ... and the run-time error: EVERY jump (conditional or not) of the global list to a reported label raises
+   "Unknown jump label" when it is taken, for every library, options record, cache, locals and world ... *)
+Theorem C18_unknown_warning_is_the_runtime_error : forall cfg lib url_rel lint_lines s l i f pc cache loc um w cond,
+  In (WUnknownLabel l i) (lint s) ->
+  nth_error s pc = Some (SJump l cond) -> cache_ok s cache -> within_budget cfg w ->
+  jump_taken cfg lib url_rel lint_lines f cond loc um w ->
+  fst (fst (exec cfg lib url_rel lint_lines (S f) s pc cache loc um w)) = ORt (msg_unknown_label l).
+Proof. exact unknown_warning_predicts_runtime_error. Qed.
+Print Assumptions C18_unknown_warning_is_the_runtime_error.
+
+(* ... while a jump to a label that is NOT reported never raises it: it continues after the first definition of the label *)
+Theorem C18_no_warning_no_runtime_error : forall cfg lib url_rel lint_lines s l f pc loc um w cond,
+  (forall i, ~ In (WUnknownLabel l i) (lint s)) ->
+  nth_error s pc = Some (SJump l cond) -> within_budget cfg w -> jump_taken cfg lib url_rel lint_lines f cond loc um w ->
+  exists k w1, find_label l s = Some k /\
+    exec cfg lib url_rel lint_lines (S f) s pc [] loc um w = exec cfg lib url_rel lint_lines f s (S k) [] loc um w1.
+Proof. exact no_unknown_warning_no_runtime_error. Qed.
+Print Assumptions C18_no_warning_no_runtime_error.
+
+Theorem C18_fn_unknown_warning_is_the_runtime_error : forall cfg lib url_rel lint_lines s l fn i f pc cache loc um w cond,
+  In (WFnUnknownLabel l fn i) (lint s) ->
+  exists k args a b body, nth_error s k = Some (SFunction fn args a b body) /\
+    (nth_error body pc = Some (SJump l cond) -> cache_ok body cache -> within_budget cfg w ->
+     jump_taken cfg lib url_rel lint_lines f cond loc um w ->
+     fst (fst (exec cfg lib url_rel lint_lines (S f) body pc cache loc um w)) = ORt (msg_unknown_label l)).
+Proof. exact fn_unknown_warning_predicts_runtime_error. Qed.
+Print Assumptions C18_fn_unknown_warning_is_the_runtime_error.
+
+(* (3) REDEFINITIONS, exact: reported at EVERY occurrence after the first one, with the index of that later occurrence
+   (duplicate arguments: with the index of the function statement) *)
+Theorem C18_label_redefinition_exact : forall s l i,
+  In (WLabelRedef l i) (lint s) <-> nth_error s i = Some (SLabel l) /\ exists j, j < i /\ nth_error s j = Some (SLabel l).
+Proof. exact label_redef_global_iff. Qed.
+Print Assumptions C18_label_redefinition_exact.
+
+Theorem C18_function_redefinition_exact : forall s f i,
+  In (WFnRedef f i) (lint s) <->
+  (exists st, nth_error s i = Some st /\ is_fn f st) /\ exists j st', j < i /\ nth_error s j = Some st' /\ is_fn f st'.
+Proof. exact fn_redef_iff. Qed.
+Print Assumptions C18_function_redefinition_exact.
+
+Theorem C18_fn_label_redefinition_exact : forall s l f i,
+  In (WFnLabelRedef l f i) (lint s) <->
+  exists k args a b body, nth_error s k = Some (SFunction f args a b body) /\
+    nth_error body i = Some (SLabel l) /\ exists j, j < i /\ nth_error body j = Some (SLabel l).
+Proof. exact label_redef_fn_iff. Qed.
+Print Assumptions C18_fn_label_redefinition_exact.
+
+Theorem C18_duplicate_argument_exact : forall s a f k,
+  In (WDupArg a f k) (lint s) <->
+  exists args b c body, nth_error s k = Some (SFunction f (Some args) b c body) /\
+    exists j, nth_error args j = Some a /\ occurs_before a args j.
+Proof. exact dup_arg_iff. Qed.
+Print Assumptions C18_duplicate_argument_exact.
+
+(* what the two deletable warnings say *)
+Theorem C18_unused_label_meaning : forall s l i,
+  In (WUnusedLabel l i) (lint s) <-> find_label l s = Some i /\ last_jump l s = None.
+Proof. exact unused_label_global_iff. Qed.
+Print Assumptions C18_unused_label_meaning.
+
+Theorem C18_pointless_meaning : forall s i,
+  In (WPointless i) (lint s) <-> exists e, nth_error s i = Some (SExpr None e) /\ pointless e = true.
+Proof. exact pointless_global_iff. Qed.
+Print Assumptions C18_pointless_meaning.
+
+(* (4) SOUNDNESS of acting on a warning, by simulation on the interpreter model.
+   Unused label: deleting the statement changes no run — result (value / error), log, final globals, heap, fetched URLs
+   ([wrel]: everything but statementCount and the bodies stored for script functions), in BOTH directions, for every run that
+   finishes (any fuel; the other run gets twice the fuel), under an unlimited statement budget (c_max = 0: deleting a statement
+   changes statementCount), for every library that treats the function table and the counter as opaque ([lib_sim]). *)
+Theorem C18_unused_label_delete : forall cfg lib url_rel lint_lines,
+  c_max cfg = 0%Z -> lib_sim lib ->
+  forall s l i, In (WUnusedLabel l i) (lint s) ->
+  nth_error s i = Some (SLabel l) /\
+  (forall f w o w1, execute_script cfg lib url_rel lint_lines f s w = (o, w1) -> o <> OFuel ->
+     exists w1', execute_script cfg lib url_rel lint_lines (2 * f) (remove_at i s) w = (o, w1') /\ wrel w1 w1') /\
+  (forall f w o w1, execute_script cfg lib url_rel lint_lines f (remove_at i s) w = (o, w1) -> o <> OFuel ->
+     exists w1', execute_script cfg lib url_rel lint_lines (2 * f) s w = (o, w1') /\ wrel w1 w1').
+Proof. exact unused_global_label_delete. Qed.
+Print Assumptions C18_unused_label_delete.
+
+Theorem C18_unused_fn_label_delete : forall cfg lib url_rel lint_lines,
+  c_max cfg = 0%Z -> lib_sim lib ->
+  forall s l fn i, In (WFnUnusedLabel l fn i) (lint s) ->
+  exists k args a b body, nth_error s k = Some (SFunction fn args a b body) /\ nth_error body i = Some (SLabel l) /\
+  let s' := set_body s k (remove_at i body) in
+  (forall f w o w1, execute_script cfg lib url_rel lint_lines f s w = (o, w1) -> o <> OFuel ->
+     exists w1', execute_script cfg lib url_rel lint_lines (2 * f) s' w = (o, w1') /\ wrel w1 w1') /\
+  (forall f w o w1, execute_script cfg lib url_rel lint_lines f s' w = (o, w1) -> o <> OFuel ->
+     exists w1', execute_script cfg lib url_rel lint_lines (2 * f) s w = (o, w1') /\ wrel w1 w1').
+Proof. exact unused_fn_label_delete. Qed.
+Print Assumptions C18_unused_fn_label_delete.
+
+(* the general statement behind both: statement lists that differ only by labels no jump targets (also inside function
+   bodies) behave alike *)
+Theorem C18_related_scripts_run_alike : forall cfg lib url_rel lint_lines,
+  c_max cfg = 0%Z -> lib_sim lib ->
+  forall c c', code_rel c c' ->
+  forall f w o w1, execute_script cfg lib url_rel lint_lines f c w = (o, w1) -> o <> OFuel ->
+  exists w1', execute_script cfg lib url_rel lint_lines (2 * f) c' w = (o, w1') /\ wrel w1 w1'.
+Proof. exact related_scripts_run_alike. Qed.
+Print Assumptions C18_related_scripts_run_alike.
+
+(* the premise on the library is satisfiable, also by a library that calls back into script functions *)
+Theorem C18_lib_premise_satisfiable : lib_sim toy_lib.
+Proof. exact toy_lib_sim. Qed.
+Print Assumptions C18_lib_premise_satisfiable.
+
+(* NOT PROVED in the model (direct oracle on the implementation only, see harness/c18.py):
+   C18_unused_var_rename, C18_unused_arg_rename : forall s f x x', In (WUnusedVar x f i) (lint s) -> fresh x' s -> run (rename ...) ~ run s
+   C18_pointless_delete : In (WPointless i) (lint s) -> run (remove_at i s) ~ run s
+     (needs: evaluating a pointless expression has no effect and cannot raise; in the model `binop` can also answer OOracle
+      "the model declines", so the statement would need that case excluded). *)
+
+(* known finding F26: the nested scope is not visited *)
+Example C18_nested_scope_refuted :
+  let inner := [SJump (U "zz") None] in
+  let s := [SFunction (U "out") (Some [U "a"]) false false
+              [SFunction (U "inner") (Some [U "b"]) false false inner; SReturn (Some (ECall (U "inner") []))];
+            SExpr None (ECall (U "out") [])] in
+  find_label (U "zz") inner = None /\ lint s = [WUnusedArg (U "a") (U "out") 0].
+Proof. exact nested_scope_refuted. Qed.
